@@ -13,7 +13,20 @@ package rebase
 //                                         whatever the records before it have
 //   io/rebase.Export/post/json-roundtrip  json.Unmarshal(Export(m)) == m, an
 //                                         absent list coming back absent and an
-//                                         empty one empty
+//                                         empty one empty; also when other maps
+//                                         are exported before the bytes are parsed
+//
+// HISTORIES of exports (c16ExportHistory). What Export returns for a map must
+// still describe that map after further calls of Export: a := Export(A), then
+// Export of one to three other maps (one whose JSON text has exactly the
+// length of A's, smaller ones, larger ones), then json.Unmarshal(a) must give A,
+// and the bytes of each later export must give its map. One history repeats
+// this 50 times with the same maps (a buffer that Export might keep between
+// calls is handed out per processor, and grows), and the histories are run
+// from one goroutine and from eight goroutines at once (classes
+// earlier-export-overwritten, export-overwritten-under-concurrent-exports; a
+// failure is classed so only if a copy of the bytes taken right after the
+// export does parse back to the map).
 //
 // ABSENT and EMPTY lists in the export. The JSON form tells an absent list (nil,
 // written as null) from an empty one (non-nil of length 0, written as []), and
@@ -58,6 +71,7 @@ import (
 	"sort"
 	"strconv"
 	"strings"
+	"sync"
 	"testing"
 	"time"
 )
@@ -618,6 +632,161 @@ func c16CheckExport(ex *verifRun, m map[string]Enzyme, what string) {
 	}
 }
 
+// c16MapDiff compares the map that went into Export with what json.Unmarshal
+// makes of the bytes, as c16CheckExport does: entry count, every entry field
+// by field, absent and empty lists told apart. "" when they agree.
+func c16MapDiff(m, back map[string]Enzyme) string {
+	if len(back) != len(m) {
+		return fmt.Sprintf("%d entries, want %d", len(back), len(m))
+	}
+	keys := make([]string, 0, len(m))
+	for k := range m {
+		keys = append(keys, k)
+	}
+	sort.Strings(keys)
+	for _, k := range keys {
+		e := m[k]
+		b, ok := back[k]
+		if !ok {
+			return "key " + strconv.Quote(k) + " lost"
+		}
+		if !c16SameEnzyme(e, b) {
+			return fmt.Sprintf("key %q: %+v came back as %+v", k, e, b)
+		}
+		if _, detail := c16ListShape(e, b); detail != "" {
+			return fmt.Sprintf("key %q: %s", k, detail)
+		}
+	}
+	if m != nil && len(m) == 0 && back == nil {
+		return "the empty map came back as an absent one (nil)"
+	}
+	return ""
+}
+
+// c16ParsesTo says what is wrong with exported bytes as a description of m
+// ("" if nothing): they do not parse, or parse to another map.
+func c16ParsesTo(out []byte, m map[string]Enzyme) string {
+	var back map[string]Enzyme
+	if err := json.Unmarshal(out, &back); err != nil {
+		return "the bytes do not parse: " + err.Error() + ": " + c16Clip(string(out))
+	}
+	if d := c16MapDiff(m, back); d != "" {
+		return "the bytes parse to another map: " + d
+	}
+	return ""
+}
+
+// the variants of an export history: which maps are exported after the first
+// one (A) and before A's bytes are parsed
+var c16ExportVariants = []struct{ others, text string }{
+	{"=", "one other map whose JSON text has exactly the length of A's (A with the letters of every recognition sequence exchanged A>C>G>T>A)"},
+	{"<", "one smaller map"},
+	{">", "one larger map"},
+	{"<=", "a smaller map, then the map of A's length"},
+	{"><", "a larger map, then a smaller one"},
+	{"=<>", "the map of A's length, a smaller map, a larger map"},
+	{"0", "the empty map"},
+	{"A", "A itself once more (every byte the same)"},
+}
+
+const c16ExportRounds = 50
+
+// c16ExportHistory runs one history of exports, c16ExportRounds times over
+// with the same maps: a := Export(A); then Export of the other maps of the
+// variant, in order; then the bytes a, which nobody but Export has touched,
+// must still parse back to A, and the bytes of every later export to its map.
+// A is the map a generated listing describes (built by the oracle, not by
+// Parse), with 1..12 records, every fourth history up to maxRecs, in the first
+// history of each variant (h < 8) a single record; a smaller map
+// has 0..|A|-1 records and a larger one |A|+1..2|A|+5, from other listings. A
+// copy of the bytes is taken right after each export: a failure is put down to
+// the history (class given by the caller) only if that copy parses back to the
+// map; otherwise the plain round trip is what fails, and that has its classes
+// in c16CheckExport.
+func c16ExportHistory(ex *verifRun, seed int64, h, maxRecs int, class, how string) {
+	variant := c16ExportVariants[h%len(c16ExportVariants)]
+	rng := rand.New(rand.NewSource(seed*1000003 + 5000000 + int64(h)))
+	doc := func(n int) c16Doc {
+		return c16NewDoc(rng, c16Shape{nRecs: n, indent: "\t", nSupp: 1 + rng.Intn(26), maxLett: 15, maxIso: 4, emptyBias: []int{0, 10, 50}[rng.Intn(3)], headerN: 0})
+	}
+	nA := 1 + rng.Intn(12)
+	if h%4 == 3 {
+		nA = 1 + rng.Intn(maxRecs)
+	}
+	if h < len(c16ExportVariants) { // the first history of every variant is the smallest: one record
+		nA = 1
+	}
+	dA := doc(nA)
+	if dA.recs[0].site == "" { // at least one recognition sequence to exchange
+		dA.recs[0].site = "GG^CC"
+	}
+	mA := c16ExpectedShapes(dA, h%4)
+	type step struct {
+		m    map[string]Enzyme
+		name string
+	}
+	steps := []step{{mA, fmt.Sprintf("A (%d entries)", len(mA))}}
+	for _, o := range variant.others {
+		var m map[string]Enzyme
+		switch o {
+		case '=':
+			d := dA
+			d.recs = append([]c16Rec(nil), dA.recs...)
+			for i := range d.recs {
+				d.recs[i].site = strings.NewReplacer("A", "C", "C", "G", "G", "T", "T", "A").Replace(d.recs[i].site)
+			}
+			m = c16ExpectedShapes(d, h%4)
+		case '<':
+			m = c16ExpectedShapes(doc(rng.Intn(nA)), h%4)
+		case '>':
+			m = c16ExpectedShapes(doc(nA+1+rng.Intn(nA+5)), h%4)
+		case '0':
+			m = map[string]Enzyme{}
+		default:
+			m = mA
+		}
+		steps = append(steps, step{m, fmt.Sprintf("%c (%d entries)", o, len(m))})
+	}
+	var names []string
+	for _, s := range steps {
+		names = append(names, s.name)
+	}
+	what := fmt.Sprintf("export history #%d (VERIF_SEED %d), %s: a := Export(A), then Export of %s, then a is parsed; maps in order: %s; repeated %d times", h, seed, how, variant.text, strings.Join(names, ", "), c16ExportRounds)
+	ex.Case(what, true)
+	outs, copies := make([][]byte, len(steps)), make([]string, len(steps))
+	for round := 0; round < c16ExportRounds; round++ {
+		for k, s := range steps {
+			if !ex.Guard("panic", what, func() { outs[k] = Export(s.m) }) {
+				return
+			}
+			copies[k] = string(outs[k])
+		}
+		for k, s := range steps {
+			// what the slice holds NOW, taken off in one go: should another goroutine's
+			// Export be writing into the same memory, the decoder must not be the
+			// one to walk over bytes that change under it (it panics when they do)
+			now := []byte(string(outs[k]))
+			wrong := c16ParsesTo(now, s.m)
+			if wrong == "" {
+				continue
+			}
+			if c16ParsesTo([]byte(copies[k]), s.m) != "" {
+				continue // the export is wrong from the start: c16CheckExport's subject
+			}
+			later := "no later call of Export in this goroutine"
+			for j := k + 1; j < len(steps); j++ {
+				if j == k+1 {
+					later = "the later calls of Export in this goroutine, returning"
+				}
+				later += fmt.Sprintf(" %d bytes for map %s,", len(copies[j]), steps[j].name)
+			}
+			ex.Fail(class, what, fmt.Sprintf("round %d: Export of map %s returned %d bytes that parsed back to the map right after the call; after %s: %s; the slice now starts %s, right after the call it started %s",
+				round+1, s.name, len(copies[k]), strings.TrimSuffix(later, ","), wrong, strconv.Quote(c16Clip(string(now))), strconv.Quote(c16Clip(copies[k]))))
+			return
+		}
+	}
+}
+
 // c16Recorded says how many failures of a class a run has counted so far.
 func c16Recorded(v *verifRun, class string) int {
 	v.mu.Lock()
@@ -864,9 +1033,11 @@ func TestVerifC16(t *testing.T) {
 	dir := t.TempDir()
 	nRandom := 150
 	nHist, histMaxRecs := 120, 60
+	nExpHist, expMaxRecs := 48, 40
 	if thorough {
 		nRandom = 6000
 		nHist, histMaxRecs = 3000, 300
+		nExpHist, expMaxRecs = 1600, 300
 	}
 	patterns := []string{"L-", "L--", "L---", "L-----", "L-L", "L-L-", "L--L--", "-L-", "--L--", "LL-", "LLL---", "L-xxxx-", "xL-x-x-L--"}
 	indents := []string{"                ", "                ", "\t", "\t\t", " ", "    ", "\t\t\t\t", "        "}
@@ -883,7 +1054,11 @@ func TestVerifC16(t *testing.T) {
 	ex := newVerifRun("C16", "io/rebase.Export/post/json-roundtrip", "json.Unmarshal(Export(m)) == m, entry by entry and field by field, for m = the result of Parse on each listing above, m = the map the listing describes built directly (suppliers decoded by the oracle), and the empty map; "+
 		"absent and empty lists: a list that is ABSENT in m (nil; null in the JSON text) must come back absent and one that is EMPTY (non-nil, length 0; [] in the text) must come back empty, for Isoschizomers and for CommercialAvailability - the JSON form tells the two apart and with the tags of Enzyme both shapes survive Export and json.Unmarshal; no exception: the experiment on the unchanged code base shows nil -> null -> nil and [] -> [] -> [] for both fields, and {} -> non-nil for the empty map; "+
 		"judged on an entry that is equal in every field otherwise, classes empty-collection-became-absent and absent-collection-became-empty; "+
-		"both shapes are supplied: Parse on the unchanged code base gives an absent CommercialAvailability for an empty <7> field and the one-element list [\"\"] for an empty <2> field (never an empty non-nil list), and in the described map the list of an empty <2> field is empty non-nil when n is even and absent when n is odd, the list of an empty <7> field empty non-nil when n/2 is even and absent when it is odd, n = number of the record in the listing from 0 + a phase 0..3 that goes round with the listings (four records in a row: both lists empty, supplier list only, isoschizomer list only, both absent; one-record listings get all four in turn); the empty map must come back as a non-nil map; non-trivial = non-empty map")
+		"both shapes are supplied: Parse on the unchanged code base gives an absent CommercialAvailability for an empty <7> field and the one-element list [\"\"] for an empty <2> field (never an empty non-nil list), and in the described map the list of an empty <2> field is empty non-nil when n is even and absent when n is odd, the list of an empty <7> field empty non-nil when n/2 is even and absent when it is odd, n = number of the record in the listing from 0 + a phase 0..3 that goes round with the listings (four records in a row: both lists empty, supplier list only, isoschizomer list only, both absent; one-record listings get all four in turn); the empty map must come back as a non-nil map; "+
+		"histories of exports: what Export returned for a map must still parse back to that map after further calls of Export - "+strconv.Itoa(2*nExpHist)+" seeded histories, each: a := Export(A), then Export of one to three other maps, then json.Unmarshal(a) must give A and the bytes of every later export its own map, the whole repeated "+strconv.Itoa(c16ExportRounds)+" times with the same maps (a buffer kept between calls would be handed out per processor and grow with use); "+
+		"A = the described map of a generated listing with 1..12 records (every fourth history 1.."+strconv.Itoa(expMaxRecs)+", the first eight histories a single record), lists of empty fields in both shapes as above; the other maps, eight variants in turn: a map whose JSON text has exactly A's length (A with the letters of every recognition sequence exchanged), a smaller map (0..|A|-1 records of another listing), a larger map (|A|+1..2|A|+5 records), smaller then equal, larger then smaller, equal then smaller then larger, the empty map, A itself again; "+
+		"histories 0.."+strconv.Itoa(nExpHist-1)+" run one after the other in the test's goroutine (class earlier-export-overwritten), histories "+strconv.Itoa(nExpHist)+".."+strconv.Itoa(2*nExpHist-1)+" in eight goroutines at once, each goroutine with histories of its own (class export-overwritten-under-concurrent-exports); a failure is given these classes only if a copy of the bytes taken right after the export parses back to the map, otherwise it is a failure of the plain round trip above; "+
+		"non-trivial = non-empty map, every history")
 	rec.Sampled()
 	sup.Sampled()
 	ex.Sampled()
@@ -1030,6 +1205,22 @@ func TestVerifC16(t *testing.T) {
 		c16History(t, rec, sup, dir, seed, h, histMaxRecs)
 	}
 	c16CheckExport(ex, map[string]Enzyme{}, "empty map")
+	// histories of exports (own streams): first from this goroutine alone, then
+	// from eight goroutines at once
+	for h := 0; h < nExpHist; h++ {
+		c16ExportHistory(ex, seed, h, expMaxRecs, "earlier-export-overwritten", "one goroutine")
+	}
+	var wg sync.WaitGroup
+	for g := 0; g < 8; g++ {
+		wg.Add(1)
+		go func(g int) {
+			defer wg.Done()
+			for h := nExpHist + g; h < 2*nExpHist; h += 8 {
+				c16ExportHistory(ex, seed, h, expMaxRecs, "export-overwritten-under-concurrent-exports", "eight goroutines exporting at once")
+			}
+		}(g)
+	}
+	wg.Wait()
 
 	rec.Done()
 	sup.Done()
